@@ -1,11 +1,13 @@
 import AbraModel.Names
 import AbraModel.Drv.Util
 /- Driver for M12 `Names`:
-   `names <builtins> <prelude> (<decls> <imports> <probe> <top>)*`   one group of four words per file, file 0 = main
+   `names <builtins> <prelude> (<decls> <types> <imports> <probe> <top>)*`   one group of five words per file, file 0 = main
+   types: comma list of `E:<name>:<variant>+<variant>` (enum) / `I:<name>:<method>+…` (interface)
    lists are comma separated, `-` = empty; imports: `g<k>` glob, `i<k>:a+b` inclusion, `e<k>:a+b` exclusion,
    `a<k>:p` alias, `m` missing file; statements (no spaces):
    `l<name>.<id>;` let, `u<name>;` use, `q<alias>.<name>;` qualified use, `{…}` block,
-   `f<name>.<id>{…}` for, `m<name>.<id>{…}` match arm, `p<name>.<id>{…}` lambda parameter
+   `f<name>.<id>{…}` for, `m<name>.<id>{…}` match arm, `p<name>.<id>{…}` lambda parameter,
+   `x<prefix|_>.<type>.<variant>;` qualified variant pattern, `y<prefix|_>.<type>.<variant>;` variant expression
    answer: `ok <file>.p=<tags>;<file>.t=<tags>;…` or `diag clash=<names> unres=<file>.<p|t>.<index>,… bad=<n>` -/
 namespace Abra.Drv
 open Abra.Names
@@ -20,6 +22,23 @@ private def takeName (cs : List Char) : String × List Char :=
 private def takeNat (cs : List Char) : Option (Nat × List Char) :=
   let ds := cs.takeWhile Char.isDigit
   if ds.isEmpty then none else (String.ofList ds).toNat?.map (fun n => (n, cs.dropWhile Char.isDigit))
+
+private def parseVariantUse (cs : List Char) (mk : Option String → String → String → Stmt String) :
+    Option (Stmt String × List Char) :=
+  let (p, r1) := takeName cs
+  match r1 with
+  | '.' :: r2 =>
+    let (ty, r3) := takeName r2
+    match r3 with
+    | '.' :: r4 =>
+      let (v, r5) := takeName r4
+      match r5 with
+      | ';' :: r6 =>
+        if p.isEmpty || ty.isEmpty || v.isEmpty then none
+        else some (mk (if p = "_" then none else some p) ty v, r6)
+      | _ => none
+    | _ => none
+  | _ => none
 
 mutual
 private def parseStmts : Nat → List Char → Option (List (Stmt String) × List Char)
@@ -79,6 +98,8 @@ private def parseStmt : Nat → List Char → Option (Stmt String × List Char)
       match parseStmts fuel r with
       | some (body, '}' :: r2) => some (Stmt.block body, r2)
       | _ => none
+    | 'x' :: r => parseVariantUse r Stmt.pmatch
+    | 'y' :: r => parseVariantUse r Stmt.euse
     | 'f' :: r => parseBinder fuel r Stmt.forv
     | 'm' :: r => parseBinder fuel r Stmt.matchv
     | 'p' :: r => parseBinder fuel r Stmt.lam
@@ -115,13 +136,22 @@ private def parseImport (s : String) : Option (Import String) :=
         | _ => none
   | [] => none
 
+private def parseType (s : String) : Option (TypeD String) :=
+  match s.splitOn ":" with
+  | [k, n, ms] =>
+    if n.isEmpty then none
+    else if k = "E" then some { name := n, isEnum := true, members := ms.splitOn "+" }
+    else if k = "I" then some { name := n, isEnum := false, members := ms.splitOn "+" }
+    else none
+  | _ => none
+
 private def parseFiles : List String → Option (List (FileD String))
   | [] => some []
-  | d :: i :: p :: t :: rest =>
-    match (splitC i).mapM parseImport, parseBody p, parseBody t, parseFiles rest with
-    | some imps, some pb, some tb, some fs =>
-      some ({ decls := splitC d, imports := imps, probe := pb, top := tb } :: fs)
-    | _, _, _, _ => none
+  | d :: ty :: i :: p :: t :: rest =>
+    match (splitC ty).mapM parseType, (splitC i).mapM parseImport, parseBody p, parseBody t, parseFiles rest with
+    | some tys, some imps, some pb, some tb, some fs =>
+      some ({ decls := splitC d, types := tys, imports := imps, probe := pb, top := tb } :: fs)
+    | _, _, _, _, _ => none
   | _ => none
 
 private def tagOf : Decl String → String
@@ -130,6 +160,9 @@ private def tagOf : Decl String → String
   | .builtin x => "B." ++ x
   | .prelude x => "P." ++ x
   | .loc id => "L" ++ toString id
+  | .enum_ f _ n => "E" ++ toString f ++ "." ++ n
+  | .iface f _ n => "I" ++ toString f ++ "." ++ n
+  | .variant f _ n v => "F" ++ toString f ++ "." ++ n ++ "." ++ v
 
 private def insertSortedS (x : String) : List String → List String
   | [] => [x]
